@@ -6,7 +6,7 @@ C11 driver: one JSON request per line on stdin, one JSON answer per line on stdo
   {"op":"build","spec":FSPEC,"func":EXPR,"args":[EXPR..],"obs":{"ok":CV}|{"err":cls}?}
       -> {"ok":CV}|{"err":kind}, "accepts":b, "holds":b
   {"op":"find","table":[[name,HANDLER]..],"expr":EXPR}
-      -> {"ok":EXPR}|{"err":kind}, "sitesOk":b,"receiverPlain":b,"noPendingFull":b
+      -> {"ok":EXPR}|{"err":kind}, "sitesOk":b (SitesOkFull),"receiverPlain":b,"styleStrict":b,"noPendingFull":b,"inputNoPendingFull":b
   {"op":"query","reW":s,"idW":s,"builtins":TABLE,"specs":[FSPEC..],"env":[[k,v]..],"cols":[EXPR..],"start":n,
    "obs":{"decls":[[ty,name]..],"blocks":[{"lines":[..],"lhs":s,"rhs":s}..],"cols":[..],"includes":[..]}|{"err":cls}?}
       -> {"ok":BODY}|{"err":kind}, "sitesOk":b,"receiverPlain":b,"wf":b,"prefixOk":b,"holds":b,"why":s
@@ -212,7 +212,8 @@ def opFind (j : Json) : Except String Json := do
     match res with
     | .ok e' => [("ok", exprJson e'), ("noPendingFull", Json.bool (NoPendingFull tbl e'))]
     | .error x => [("err", Json.str (errKind x)), ("cls", Json.str (errClass x))]
-  pure (Json.mkObj (out ++ [("sitesOk", Json.bool (SitesOk tbl e)), ("receiverPlain", Json.bool (ReceiverPlain tbl e))]))
+  pure (Json.mkObj (out ++ [("sitesOk", Json.bool (SitesOkFull tbl e)), ("receiverPlain", Json.bool (ReceiverPlain tbl e)),
+    ("styleStrict", Json.bool (StyleStrict tbl e)), ("inputNoPendingFull", Json.bool (NoPendingFull tbl e))]))
 
 def opQuery (j : Json) : Except String Json := do
   let reW := mkW (getStrD j "reW" "")
@@ -223,7 +224,8 @@ def opQuery (j : Json) : Except String Json := do
   let cols ← (← (← j.getObjVal? "cols").getArr?).toList.mapM parseExpr
   let start ← (← j.getObjVal? "start").getNat?
   let tbl := mkTable builtins specs
-  let sitesOk := SitesOkList tbl cols
+  let styleStrict := StyleStrictList tbl cols
+  let sitesOk := SitesOkList tbl cols && styleStrict
   let found := finderList tbl cols
   let model := runQuery reW builtins specs env cols start
   let (wf, prefixOk) : Bool × Bool :=
@@ -258,7 +260,7 @@ def opQuery (j : Json) : Except String Json := do
     | .ok b => [("ok", bodyJson b)]
     | .error e => [("err", Json.str (errKind e)), ("cls", Json.str (errClass e))]
   pure (Json.mkObj (out ++ [("sitesOk", Json.bool sitesOk), ("receiverPlain", Json.bool (ReceiverPlainList tbl cols)),
-    ("wf", Json.bool wf), ("prefixOk", Json.bool prefixOk), ("holds", Json.bool holds), ("why", Json.str why)]))
+    ("wf", Json.bool wf), ("prefixOk", Json.bool prefixOk), ("styleStrict", Json.bool styleStrict), ("holds", Json.bool holds), ("why", Json.str why)]))
 
 def handle (line : String) : String :=
   match Json.parse line with
